@@ -3,11 +3,16 @@
 Model:    lean/DaskModel/Model/Callbacks.lean (Callback.active, add_callbacks, Callback.__enter__/__exit__,
           register/unregister, local_callbacks) + the callback log of Model/Sched.lean
 Theorems: lean/DaskModel/Props/C05.lean
-Tie:      `hist`  — flat histories (also ill-bracketed) of enter/exit of Callback objects and add_callbacks
-                    managers, register/unregister, scheduler calls with and without `callbacks=`, executed on
-                    the real classes and on the model: `Callback.active` after every operation, which callbacks
-                    every scheduler call used, which operation raises;
-          `prog`  — well-bracketed programs (real nested `with` statements) vs the structured `exec`;
+Tie:      `hist`  — flat histories (also ill-bracketed) of enter/exit of Callback objects, of add_callbacks
+                    managers BUILT, ENTERED and LEFT as separate operations (entered later than built, several
+                    times, in another order than built), register/unregister, scheduler calls with and without
+                    `callbacks=`, executed on the real classes and on the model: `Callback.active` after every
+                    operation, which callbacks every scheduler call used, which operation raises; the statement's
+                    clauses are also evaluated directly on the real classes (no exit deactivates what an enclosing
+                    open context or an earlier register() activated; what a context is given is active inside it);
+          `prog`  — well-bracketed programs (real nested `with` statements, incl. `with h:` for manager objects
+                    built earlier) vs the structured `exec`;
+          `unpack` — unpack_callbacks / normalize_callback / local_callbacks at function level;
           every real scheduler call records the full event sequence each callback saw: protocol oracle;
           `exh`   — (thorough) every history of <= 5 operations over 2 callback objects.
 """
@@ -44,33 +49,58 @@ TECHNIQUE = "Lean 4 structural-induction proof over all well-bracketed callback 
 ASSUMPTIONS = ["callbacks do not raise and do not touch Callback.active themselves"]
 
 
-class _World:
-    """real callback objects; object o has tuple id TUP[o] (objects 0 and 1 share their functions)"""
+HOOKS = ("start", "start_state", "pretask", "posttask", "finish")
 
-    def __init__(self, tup):
+
+class _World:
+    """real callback objects; object o has tuple id TUP[o] (objects with the same tuple id share their functions).
+
+    flavour "functions": `Callback(start=…, …)`; flavour "subclass": instances of a `Callback` subclass whose hooks are
+    methods (bound methods: every instance has its own tuple, so tuple ids must be distinct).
+    hooks: tuple id -> the hooks that exist (the others are None in the 5-tuple)."""
+
+    def __init__(self, tup, flavour="functions", hooks=None):
         from dask.callbacks import Callback
         self.tup = tup
+        self.hooks = {t: tuple((hooks or {}).get(str(t), (hooks or {}).get(t, HOOKS))) for t in set(tup)}
         self.events = {}          # tuple id -> list of events of the current scheduler call
-        fn_sets = {}
+
+        def rec(t, ev):
+            self.events.setdefault(t, []).append(ev)
+        fns = {}
         for t in sorted(set(tup)):
-            fn_sets[t] = dict(
-                start=(lambda dsk, t=t: self.events.setdefault(t, []).append(("start",))),
-                start_state=(lambda dsk, state, t=t: self.events.setdefault(t, []).append(("start_state",))),
-                pretask=(lambda key, dsk, state, t=t: self.events.setdefault(t, []).append(("pretask", key))),
-                posttask=(lambda key, res, dsk, state, wid, t=t: self.events.setdefault(t, []).append(("posttask", key))),
-                finish=(lambda dsk, state, failed, t=t: self.events.setdefault(t, []).append(("finish", bool(failed)))))
-        self.objs = [Callback(**fn_sets[t]) for t in tup]
+            allf = dict(
+                start=(lambda dsk, t=t: rec(t, ("start",))),
+                start_state=(lambda dsk, state, t=t: rec(t, ("start_state",))),
+                pretask=(lambda key, dsk, state, t=t: rec(t, ("pretask", key))),
+                posttask=(lambda key, res, dsk, state, wid, t=t: rec(t, ("posttask", key))),
+                finish=(lambda dsk, state, failed, t=t: rec(t, ("finish", bool(failed)))))
+            fns[t] = {k: f for k, f in allf.items() if k in self.hooks[t]}
+        if flavour == "subclass":
+            assert len(set(tup)) == len(tup)
+            self.objs = []
+            for t in tup:
+                ns = {}
+                for k, f in fns[t].items():
+                    ns["_" + k] = (lambda f: (lambda self, *a: f(*a)))(f)
+                self.objs.append(type("Sub%d" % t, (Callback,), ns)())
+        else:
+            self.objs = [Callback(**fns[t]) for t in tup]
         self.tuple_of = {}
         for o, t in zip(self.objs, tup):
             self.tuple_of[o._callback] = t
-        self.handles = []
+        self.handles = {}
+
+    def obj_of(self, c, last=False):
+        idx = [i for i, t in enumerate(self.tup) if t == c]
+        return self.objs[idx[-1] if last else idx[0]]
 
     def active(self):
         from dask.callbacks import Callback
         return sorted(self.tuple_of.get(c, 99) for c in Callback.active)
 
     def get(self, ctx, how, cbs=None, fail=False):
-        """one scheduler call; returns the sorted list of tuple ids that were used"""
+        """one scheduler call; returns the sorted list of tuple ids that were used (with multiplicity)"""
         from dask.local import get_sync
         from dask.threaded import get as tget
         self.events = {}
@@ -78,7 +108,7 @@ class _World:
         def boom(x):
             raise ValueError("boom")
         dsk = {"a": 1, "b": (lambda x: x + 1, "a"), "c": ((boom if fail else (lambda x: x * 2)), "b"), "d": (lambda x, y: x + y, "b", "c")}
-        kw = {} if cbs is None else {"callbacks": [self.objs[[i for i, t in enumerate(self.tup) if t == c][0]]._callback for c in cbs]}
+        kw = {} if cbs is None else {"callbacks": [self.obj_of(c)._callback for c in cbs]}
         try:
             if how == "threaded":
                 tget(dsk, "d", num_workers=2, **kw)
@@ -91,41 +121,58 @@ class _World:
             ctx.fail("scheduler call outcome unexpected", observed=failed, expected=fail)
         used = []
         for t, evs in self.events.items():
-            n = _protocol_oracle(ctx, t, evs, fail)
+            n = _protocol_oracle(ctx, t, evs, fail, self.hooks.get(t, HOOKS))
             used += [t] * n
         return sorted(used)
 
 
-def _protocol_oracle(ctx, t, evs, fail):
-    """events one callback saw during one scheduler call; returns how many times it was invoked (multiplicity)"""
-    n = sum(1 for e in evs if e[0] == "start")
+def _protocol_oracle(ctx, t, evs, fail, hooks=HOOKS):
+    """events one callback (with the hooks `hooks`) saw during one scheduler call; returns how many times it was
+    invoked (multiplicity)"""
+    once = [k for k in ("start", "start_state", "finish") if k in hooks]
+    if once:
+        n = sum(1 for e in evs if e[0] == once[0])
+    else:
+        marker = ("pretask", "b") if "pretask" in hooks else ("posttask", "b")
+        n = sum(1 for e in evs if e == marker)
+    if any(e[0] not in hooks for e in evs):
+        ctx.fail("a hook that the callback does not have was invoked", observed=evs[:6])
     if n == 0:
-        ctx.fail("callback saw events but no start", observed=evs[:6])
+        ctx.fail("callback saw events but not its first per-call event", observed=evs[:6])
         return 1
     if n > 1:
         # the same tuple passed several times through callbacks=[...]: split is not possible, check the counts only
-        for kind in ("start_state", "finish"):
+        for kind in once:
             if sum(1 for e in evs if e[0] == kind) != n:
                 ctx.fail(f"callback invoked {n} times but {kind} count differs", observed=evs[:10])
         return n
-    if evs[0] != ("start",) or evs[1] != ("start_state",):
-        ctx.fail("start / start_state are not the first two events", observed=evs[:4])
-    if evs[-1][0] != "finish" or sum(1 for e in evs if e[0] == "finish") != 1:
-        ctx.fail("finish is not the single last event", observed=evs[-3:])
-    elif evs[-1][1] != fail:
-        ctx.fail("finish got the wrong failed flag", observed=evs[-1], expected=fail)
+    pos = 0
+    for kind in ("start", "start_state"):
+        if kind in hooks:
+            if len(evs) <= pos or evs[pos] != (kind,):
+                ctx.fail("start / start_state are not the first events, once, in this order", observed=evs[:4])
+            pos += 1
+    for kind in ("start", "start_state"):
+        if sum(1 for e in evs if e[0] == kind) > 1:
+            ctx.fail(f"{kind} fired more than once in one scheduler call", observed=evs[:6])
+    if "finish" in hooks:
+        if evs[-1][0] != "finish" or sum(1 for e in evs if e[0] == "finish") != 1:
+            ctx.fail("finish is not the single last event", observed=evs[-3:])
+        elif evs[-1][1] != fail:
+            ctx.fail("finish got the wrong failed flag", observed=evs[-1], expected=fail)
     pre = [e[1] for e in evs if e[0] == "pretask"]
     post = [e[1] for e in evs if e[0] == "posttask"]
     if len(set(pre)) != len(pre) or len(set(post)) != len(post):
         ctx.fail("a key got two pretask or two posttask calls", observed=[pre, post])
-    for k in post:
-        if k not in pre or evs.index(("pretask", k)) > evs.index(("posttask", k)):
-            ctx.fail("posttask without a preceding pretask", observed=k)
-    if not fail and sorted(pre) != sorted(post):
-        ctx.fail("on success pretask and posttask keys differ", observed=[pre, post])
-    if not fail and sorted(pre) != ["b", "c", "d"]:
-        ctx.fail("pretask keys are not the executed tasks", observed=pre)
-    if fail and ("c" in post or "d" in pre):
+    if "pretask" in hooks and "posttask" in hooks:
+        for k in post:
+            if k not in pre or evs.index(("pretask", k)) > evs.index(("posttask", k)):
+                ctx.fail("posttask without a preceding pretask", observed=k)
+    if not fail:
+        for kind, lst in (("pretask", pre), ("posttask", post)):
+            if kind in hooks and sorted(lst) != ["b", "c", "d"]:
+                ctx.fail(f"on success the {kind} keys are not exactly the executed tasks", observed=lst)
+    if fail and ("c" in post or "d" in pre or "d" in post):
         ctx.fail("callbacks saw a dependent of the failed task / posttask of the failed task", observed=[pre, post])
     return 1
 
@@ -134,32 +181,40 @@ def _enc_op(op):
     return [Sym(op[0])] + list(op[1:])
 
 
+class _Raised(Exception):
+    pass
+
+
 def case_hist(ctx, inp):
     from dask.callbacks import Callback, add_callbacks
     tup, ops = inp["tup"], inp["ops"]
     Callback.active.clear()
-    w = _World(tup)
+    w = _World(tup, inp.get("flavour", "functions"), inp.get("hooks"))
     real = []
+    frames = []            # open contexts in entry order: dict(id, before, activated)
+    registered = set()     # tuple ids activated by register() (inactive before it) and not unregistered since
     try:
         for op in ops:
             kind = op[0]
             used = None
+            before = w.active()
             try:
                 if kind == "enterObj":
                     w.objs[op[1]].__enter__()
                 elif kind == "exitObj":
                     w.objs[op[1]].__exit__(None, None, None)
+                elif kind == "buildCm":
+                    if op[1] in w.handles:
+                        raise KeyError(op[1])
+                    w.handles[op[1]] = add_callbacks(*[w.obj_of(c, last=True) for c in op[2:]])
                 elif kind == "enterCm":
-                    objs = [w.objs[[i for i, t in enumerate(tup) if t == c][-1]] for c in op[1:]]
-                    h = add_callbacks(*objs)
-                    h.__enter__()
-                    w.handles.append(h)
+                    w.handles[op[1]].__enter__()
                 elif kind == "exitCm":
                     w.handles[op[1]].__exit__(None, None, None)
                 elif kind == "register":
-                    w.objs[[i for i, t in enumerate(tup) if t == op[1]][0]].register()
+                    w.obj_of(op[1]).register()
                 elif kind == "unregister":
-                    w.objs[[i for i, t in enumerate(tup) if t == op[1]][0]].unregister()
+                    w.obj_of(op[1]).unregister()
                 elif kind == "get":
                     used = w.get(ctx, inp.get("how", "sync"), None, inp.get("fail", False))
                 elif kind == "getWith":
@@ -168,7 +223,52 @@ def case_hist(ctx, inp):
                 real.append([Sym("raised")])
                 ctx.branch("raises:" + kind)
                 break
-            real.append([Sym("ok"), w.active(), used if used is not None else None])
+            after = w.active()
+            real.append([Sym("ok"), after, used if used is not None else None])
+            # ---- the statement's clauses, evaluated directly on the real classes
+            if kind in ("enterObj", "enterCm"):
+                fid = (kind[5:], op[1])
+                given = [tup[op[1]]] if kind == "enterObj" else sorted({w.tuple_of[c] for c in w.handles[op[1]].callbacks})
+                if any(c not in after for c in given):
+                    ctx.fail("a callback given to a context is not active inside it", observed=after, expected=given)
+                lost = [c for c in before if c not in after]
+                if lost:
+                    ctx.fail("entering a callback context deactivated a callback", observed=lost)
+                frames.append({"id": fid, "before": set(before), "activated": set(after) - set(before)})
+            elif kind in ("exitObj", "exitCm"):
+                fid = (kind[4:], op[1])
+                idx = max((i for i, f in enumerate(frames) if f["id"] == fid), default=None)
+                if idx is not None:
+                    f = frames.pop(idx)
+                    removed = set(before) - set(after)
+                    outer = set().union(*[g["activated"] for g in frames[:idx]]) if idx else set()
+                    bad = sorted(c for c in removed if c in f["before"] and (c in outer or c in registered))
+                    if bad:
+                        ctx.fail("leaving a callback context deactivated a callback that an enclosing context or an "
+                                 "earlier register() activated", observed=bad, expected=sorted(before))
+                    if set(after) - set(before):
+                        ctx.fail("leaving a callback context activated a callback", observed=sorted(set(after) - set(before)))
+            elif kind == "buildCm":
+                if before != after:
+                    ctx.fail("building an add_callbacks object changed Callback.active (contexts apply only when entered)",
+                             observed=after, expected=before)
+            elif kind == "register":
+                if op[1] not in before:
+                    registered.add(op[1])
+                if op[1] not in after:
+                    ctx.fail("register() did not activate the callback", observed=after)
+            elif kind == "unregister":
+                registered.discard(op[1])
+                for g in frames:
+                    g["activated"].discard(op[1])
+            elif kind == "get":
+                if sorted(set(used)) != before or len(used) != len(set(used)):
+                    ctx.fail("a scheduler call did not use exactly the active callbacks", observed=used, expected=before)
+                if after != before:
+                    ctx.fail("a scheduler call changed Callback.active", observed=after, expected=before)
+            elif kind == "getWith":
+                if used != sorted(op[1:]):
+                    ctx.fail("a scheduler call with callbacks=[...] did not use exactly those", observed=used, expected=sorted(op[1:]))
     finally:
         Callback.active.clear()
     mops = []
@@ -193,6 +293,23 @@ def case_hist(ctx, inp):
     ent = [o[1] for o in ops if o[0] == "enterObj"]
     if len(ent) != len(set(ent)):
         ctx.branch("same-object-entered-twice")
+    entc = [o[1] for o in ops if o[0] == "enterCm"]
+    if len(entc) != len(set(entc)):
+        ctx.branch("same-manager-entered-twice")
+    # a manager entered although something else happened between its construction and its entry
+    for j, o in enumerate(ops):
+        if o[0] == "enterCm":
+            b = [i for i, q in enumerate(ops[:j]) if q[0] == "buildCm" and q[1] == o[1]]
+            if b and any(q[0] in ("enterObj", "enterCm", "register", "exitObj", "exitCm", "unregister") for q in ops[b[0] + 1:j]):
+                ctx.branch("manager-entered-later-than-built")
+                break
+    built = [o[1] for o in ops if o[0] == "buildCm"]
+    first_enter = []
+    for o in ops:
+        if o[0] == "enterCm" and o[1] not in first_enter:
+            first_enter.append(o[1])
+    if len(first_enter) >= 2 and first_enter != [h for h in built if h in first_enter]:
+        ctx.branch("managers-entered-in-another-order-than-built")
     if "register" in kinds and ("enterObj" in kinds or "enterCm" in kinds):
         ctx.branch("register+context")
     if any(k in ("get", "getWith") for k in kinds):
@@ -201,6 +318,10 @@ def case_hist(ctx, inp):
         ctx.branch("objects-sharing-a-tuple")
     if inp.get("fail"):
         ctx.branch("failing-call")
+    if inp.get("flavour") == "subclass":
+        ctx.branch("subclass-callbacks")
+    if inp.get("hooks"):
+        ctx.branch("partial-hooks")
 
 
 def _run_prog(ctx, w, p, uses, how, fail):
@@ -218,6 +339,15 @@ def _run_prog(ctx, w, p, uses, how, fail):
     elif kind == "withObj":
         with w.objs[p[1]]:
             _run_prog(ctx, w, p[2], uses, how, fail)
+    elif kind == "build":
+        if p[1] in w.handles:
+            raise _Raised()
+        w.handles[p[1]] = add_callbacks(*[w.objs[c] for c in p[2]])
+    elif kind == "withH":
+        if p[1] not in w.handles:
+            raise _Raised()
+        with w.handles[p[1]]:
+            _run_prog(ctx, w, p[2], uses, how, fail)
     elif kind == "register":
         w.objs[p[1]].register()
     elif kind == "unregister":
@@ -234,6 +364,10 @@ def _enc_prog(p):
         return [Sym("withCm"), list(p[1]), _enc_prog(p[2])]
     if k == "withObj":
         return [Sym("withObj"), p[1], _enc_prog(p[2])]
+    if k == "build":
+        return [Sym("build"), p[1], list(p[2])]
+    if k == "withH":
+        return [Sym("withH"), p[1], _enc_prog(p[2])]
     return [Sym(k)] + list(p[1:])
 
 
@@ -241,7 +375,7 @@ def _regs(p, which):
     k = p[0]
     if k == "seq":
         return _regs(p[1], which) | _regs(p[2], which)
-    if k in ("withCm", "withObj"):
+    if k in ("withCm", "withObj", "withH"):
         return _regs(p[2], which)
     return {p[1]} if k == which else set()
 
@@ -250,7 +384,7 @@ def case_prog(ctx, inp):
     from dask.callbacks import Callback
     n, p = inp["n"], inp["prog"]
     Callback.active.clear()
-    w = _World(list(range(n)))
+    w = _World(list(range(n)), inp.get("flavour", "functions"), inp.get("hooks"))
     for c in inp.get("pre", []):
         w.objs[c].register()
     before = w.active()
@@ -259,9 +393,9 @@ def case_prog(ctx, inp):
         try:
             _run_prog(ctx, w, p, uses, inp.get("how", "sync"), inp.get("fail", False))
             real = [Sym("ok"), w.active(), uses]
-        except KeyError:
+        except (KeyError, _Raised):
             real = [Sym("raised")]
-            ctx.branch("prog:unregister-raises")
+            ctx.branch("prog:raises")
     finally:
         after = w.active()
         Callback.active.clear()
@@ -279,8 +413,9 @@ def case_prog(ctx, inp):
         extra = [x for x in after if x not in before and x not in _regs(p, "register")]
         if extra:
             ctx.fail("a callback is still active after its context was left", observed=extra)
+
     def depth(q):
-        return 0 if q[0] not in ("seq", "withCm", "withObj") else (max(depth(q[1]), depth(q[2])) if q[0] == "seq" else 1 + depth(q[2]))
+        return 0 if q[0] not in ("seq", "withCm", "withObj", "withH") else (max(depth(q[1]), depth(q[2])) if q[0] == "seq" else 1 + depth(q[2]))
     if depth(p) >= 2:
         ctx.branch("prog:nesting>=2")
     if depth(p) >= 3:
@@ -290,6 +425,35 @@ def case_prog(ctx, inp):
     if inp.get("pre"):
         ctx.branch("prog:registered-before")
 
+    def has(q, k):
+        return q[0] == k or (q[0] == "seq" and (has(q[1], k) or has(q[2], k))) or \
+            (q[0] in ("withCm", "withObj", "withH") and has(q[2], k))
+    if has(p, "withH"):
+        ctx.branch("prog:prebuilt-manager")
+
+    def nested_same_h(q, open_=()):
+        if q[0] == "seq":
+            return nested_same_h(q[1], open_) or nested_same_h(q[2], open_)
+        if q[0] == "withH":
+            return q[1] in open_ or nested_same_h(q[2], open_ + (q[1],))
+        if q[0] in ("withCm", "withObj"):
+            return nested_same_h(q[2], open_)
+        return False
+    if nested_same_h(p):
+        ctx.branch("prog:manager-entered-inside-itself")
+
+    def count_h(q):
+        if q[0] == "seq":
+            return count_h(q[1]) + count_h(q[2])
+        if q[0] == "withH":
+            return [q[1]] + count_h(q[2])
+        if q[0] in ("withCm", "withObj"):
+            return count_h(q[2])
+        return []
+    hs = count_h(p)
+    if len(hs) != len(set(hs)):
+        ctx.branch("prog:manager-reused")
+
     def reenters(q, open_=()):
         if q[0] == "seq":
             return reenters(q[1], open_) or reenters(q[2], open_)
@@ -297,61 +461,176 @@ def case_prog(ctx, inp):
             return q[1] in open_ or reenters(q[2], open_ + (q[1],))
         if q[0] == "withCm":
             return any(c in open_ for c in q[1]) or reenters(q[2], open_ + tuple(q[1]))
+        if q[0] == "withH":
+            cbs = tuple(inp.get("mgrs", {}).get(str(q[1]), []))
+            return any(c in open_ for c in cbs) or reenters(q[2], open_ + cbs)
         return False
     if reenters(p, tuple(inp.get("pre", []))):
         ctx.branch("prog:re-enters-an-active-callback")
 
 
-CASES = {"hist": case_hist, "prog": case_prog}
+def case_unpack(ctx, inp):
+    """unpack_callbacks / normalize_callback / local_callbacks at function level"""
+    from dask.callbacks import Callback, add_callbacks, local_callbacks, normalize_callback, unpack_callbacks
+    # callbacks as 5-tuples of small ints (0 = the hook is missing): plain Python is the specification
+    cbs = [tuple(c) for c in inp["cbs"]]
+    fake = [tuple((("f", v) if v else None) for v in c) for c in cbs]
+    got = unpack_callbacks(fake)
+    want = [[c[i] for c in fake if c[i]] for i in range(5)] if fake else [(), (), (), (), ()]
+    if [list(x) for x in got] != [list(x) for x in want]:
+        ctx.fail("unpack_callbacks does not return, per hook, the given hooks in the order of the callbacks",
+                 observed=repr(got)[:200], expected=repr(want)[:200])
+    if not fake:
+        ctx.branch("unpack:empty")
+    if any(not all(c) for c in fake):
+        ctx.branch("unpack:missing-hooks")
+    # normalize_callback
+    o = Callback(pretask=lambda *a: None)
+    if normalize_callback(o) != o._callback or normalize_callback(fake[0] if fake else (None,) * 5) != (fake[0] if fake else (None,) * 5):
+        ctx.fail("normalize_callback changed a tuple / did not return Callback._callback", observed="normalize_callback")
+    try:
+        normalize_callback([1, 2])
+        ctx.fail("normalize_callback accepted a list", observed="no TypeError")
+    except TypeError:
+        pass
+    # local_callbacks: with callbacks=None the global set is handed over and restored (also when the body raises);
+    # with explicit callbacks the global set is untouched
+    Callback.active.clear()
+    try:
+        for c in fake[: inp.get("nactive", 0)]:
+            Callback.active.add(c)
+        snapshot = set(Callback.active)
+        try:
+            with local_callbacks(None) as inner:
+                if set(inner) != snapshot:
+                    ctx.fail("local_callbacks(None) does not hand over the active callbacks", observed=len(inner), expected=len(snapshot))
+                if Callback.active:
+                    ctx.fail("local_callbacks(None): nested schedulers would see the global callbacks again",
+                             observed=len(Callback.active))
+                if inp.get("raise_inside"):
+                    raise ZeroDivisionError
+        except ZeroDivisionError:
+            ctx.branch("unpack:body-raises")
+        if set(Callback.active) != snapshot:
+            ctx.fail("local_callbacks(None) did not restore Callback.active", observed=len(Callback.active), expected=len(snapshot))
+        with local_callbacks(fake) as inner:
+            if list(inner) != list(fake or ()):
+                ctx.fail("local_callbacks(cbs) does not yield cbs", observed=repr(inner)[:100])
+            if set(Callback.active) != snapshot:
+                ctx.fail("local_callbacks(cbs) touched Callback.active", observed=len(Callback.active))
+        if snapshot:
+            ctx.branch("unpack:active-nonempty")
+    finally:
+        Callback.active.clear()
+
+
+CASES = {"hist": case_hist, "prog": case_prog, "unpack": case_unpack}
+
+
+def _gen_hooks(rng, tids):
+    """for some tuple ids only a subset of the five hooks exists"""
+    out = {}
+    for t in tids:
+        if rng.random() < 0.5:
+            k = rng.randint(1, 4)
+            out[str(t)] = sorted(rng.sample(HOOKS, k), key=HOOKS.index)
+    return out
 
 
 def _gen_hist(rng, nobj, length):
     tup = [0, 0, 1, 2][:nobj] if rng.random() < 0.3 else list(range(nobj))
-    ops, ncm, depth_objs = [], 0, []
-    for _ in range(length):
+    tids = sorted(set(tup))
+    ops, depth_objs, open_cms, built = [], [], [], []
+    # managers built ahead of time (entered later, several times, in another order)
+    for _ in range(rng.choice([0, 0, 1, 2, 3])):
+        ops.append(["buildCm", len(built)] + [rng.choice(tids) for _ in range(rng.randint(1, 3))])
+        built.append(len(built))
+    while len(ops) < length:
         r = rng.random()
-        if r < 0.25:
+        if r < 0.20:
             o = rng.randrange(nobj)
             ops.append(["enterObj", o])
             depth_objs.append(o)
-        elif r < 0.42:
+        elif r < 0.34:
             # mostly well-bracketed exits, sometimes arbitrary
             o = depth_objs.pop() if depth_objs and rng.random() < 0.8 else rng.randrange(nobj)
             ops.append(["exitObj", o])
-        elif r < 0.55:
-            k = rng.randint(1, 3)
-            ops.append(["enterCm"] + [rng.choice(sorted(set(tup))) for _ in range(k)])
-            ncm += 1
-        elif r < 0.65 and ncm:
-            ops.append(["exitCm", rng.randrange(ncm)])
-        elif r < 0.75:
-            ops.append(["register", rng.choice(sorted(set(tup)))])
+        elif r < 0.42:
+            # `with add_callbacks(...)`: built and entered at once
+            h = len(built)
+            built.append(h)
+            ops.append(["buildCm", h] + [rng.choice(tids) for _ in range(rng.randint(1, 3))])
+            ops.append(["enterCm", h])
+            open_cms.append(h)
+        elif r < 0.47:
+            h = len(built)
+            built.append(h)
+            ops.append(["buildCm", h] + [rng.choice(tids) for _ in range(rng.randint(1, 3))])
+        elif r < 0.57 and built:
+            h = rng.choice(built)                    # any manager: never entered, entered before, still open
+            ops.append(["enterCm", h])
+            open_cms.append(h)
+        elif r < 0.68 and built:
+            h = open_cms.pop() if open_cms and rng.random() < 0.75 else rng.choice(built)
+            ops.append(["exitCm", h])
+        elif r < 0.76:
+            ops.append(["register", rng.choice(tids)])
         elif r < 0.82:
-            ops.append(["unregister", rng.choice(sorted(set(tup)))])
+            ops.append(["unregister", rng.choice(tids)])
         elif r < 0.95:
             ops.append(["get"])
         else:
-            ops.append(["getWith"] + [rng.choice(sorted(set(tup))) for _ in range(rng.randint(0, 2))])
+            ops.append(["getWith"] + [rng.choice(tids) for _ in range(rng.randint(0, 2))])
     return tup, ops
 
 
-def _gen_prog(rng, n, depth):
+def _gen_prog(rng, n, depth, handles=()):
     r = rng.random()
     if depth <= 0 or r < 0.15:
         return rng.choice([["get"], ["get"], ["skip"], ["register", rng.randrange(n)], ["unregister", rng.randrange(n)]]) \
             if rng.random() < 0.35 else ["get"]
     if r < 0.45:
-        return ["seq", _gen_prog(rng, n, depth - 1), _gen_prog(rng, n, depth - 1)]
-    if r < 0.75:
-        return ["withObj", rng.randrange(n), _gen_prog(rng, n, depth - 1)]
-    return ["withCm", [rng.randrange(n) for _ in range(rng.randint(1, 3))], _gen_prog(rng, n, depth - 1)]
+        return ["seq", _gen_prog(rng, n, depth - 1, handles), _gen_prog(rng, n, depth - 1, handles)]
+    if handles and r < 0.62:
+        return ["withH", rng.choice(handles), _gen_prog(rng, n, depth - 1, handles)]
+    if r < 0.80:
+        return ["withObj", rng.randrange(n), _gen_prog(rng, n, depth - 1, handles)]
+    return ["withCm", [rng.randrange(n) for _ in range(rng.randint(1, 3))], _gen_prog(rng, n, depth - 1, handles)]
+
+
+def _gen_prog_input(rng):
+    n = rng.randint(1, 3)
+    mgrs = {}
+    if rng.random() < 0.5:
+        for h in range(rng.randint(1, 2)):
+            mgrs[str(h)] = [rng.randrange(n) for _ in range(rng.randint(1, 2))]
+    body = _gen_prog(rng, n, rng.randint(1, 5), tuple(int(h) for h in mgrs))
+    # the managers are built first - or, sometimes, only after an outer context is already open
+    builds = None
+    for h, cbs in mgrs.items():
+        b = ["build", int(h), cbs]
+        builds = b if builds is None else ["seq", builds, b]
+    if builds is not None:
+        if rng.random() < 0.3:
+            body = ["withCm", [rng.randrange(n)], ["seq", builds, body]]
+        elif rng.random() < 0.3:
+            body = ["withObj", rng.randrange(n), ["seq", builds, body]]
+        else:
+            body = ["seq", builds, body]
+    inp = {"n": n, "prog": body, "pre": [c for c in range(n) if rng.random() < 0.25], "mgrs": mgrs,
+           "how": rng.choice(["sync", "sync", "threaded"]), "fail": rng.random() < 0.15}
+    if rng.random() < 0.25:
+        inp["flavour"] = "subclass"
+    if rng.random() < 0.25:
+        inp["hooks"] = _gen_hooks(rng, range(n))
+    return inp
 
 
 def _all_ops(nobj):
     ops = [["get"]]
     for o in range(nobj):
         ops += [["enterObj", o], ["exitObj", o], ["register", o], ["unregister", o]]
-    ops += [["enterCm", 0], ["enterCm", 0, 1], ["exitCm", 0], ["exitCm", 1]]
+    ops += [["enterCm", 0], ["enterCm", 1], ["exitCm", 0], ["exitCm", 1]]
     return ops
 
 
@@ -361,24 +640,42 @@ def generate(ctx):
     yield "prog", {"n": 1, "prog": ["withObj", 0, ["seq", ["withObj", 0, ["skip"]], ["get"]]]}
     yield "prog", {"n": 1, "pre": [0], "prog": ["seq", ["withObj", 0, ["skip"]], ["seq", ["get"], ["unregister", 0]]]}
     yield "hist", {"tup": [0], "ops": [["enterObj", 0], ["enterObj", 0], ["exitObj", 0], ["get"], ["exitObj", 0], ["get"]]}
+    # the second recorded defect (fixed): a manager object used again inside a context that activated the same callback
+    yield "prog", {"n": 1, "mgrs": {"0": [0]}, "prog": ["seq", ["build", 0, [0]], ["seq", ["withH", 0, ["skip"]],
+                   ["withCm", [0], ["seq", ["withH", 0, ["skip"]], ["get"]]]]]}
+    yield "hist", {"tup": [0], "ops": [["buildCm", 0, 0], ["enterCm", 0], ["exitCm", 0], ["buildCm", 1, 0], ["enterCm", 1],
+                                       ["enterCm", 0], ["exitCm", 0], ["get"], ["exitCm", 1], ["get"]]}
+    # built ahead of time, entered after an enclosing context activated the same callback
+    yield "hist", {"tup": [0], "ops": [["buildCm", 0, 0], ["enterObj", 0], ["enterCm", 0], ["exitCm", 0], ["get"], ["exitObj", 0], ["get"]]}
     for _ in range(ctx.n(500, 5000)):
         tup, ops = _gen_hist(rng, rng.randint(1, 4), rng.randint(1, 12))
-        yield "hist", {"tup": tup, "ops": ops, "how": rng.choice(["sync", "sync", "threaded"]), "fail": rng.random() < 0.2}
+        inp = {"tup": tup, "ops": ops, "how": rng.choice(["sync", "sync", "threaded"]), "fail": rng.random() < 0.2}
+        if len(set(tup)) == len(tup) and rng.random() < 0.25:
+            inp["flavour"] = "subclass"
+        if rng.random() < 0.25:
+            inp["hooks"] = _gen_hooks(rng, sorted(set(tup)))
+        yield "hist", inp
     for _ in range(ctx.n(400, 4000)):
-        n = rng.randint(1, 3)
-        yield "prog", {"n": n, "prog": _gen_prog(rng, n, rng.randint(1, 5)), "pre": [c for c in range(n) if rng.random() < 0.25],
-                       "how": rng.choice(["sync", "sync", "threaded"]), "fail": rng.random() < 0.15}
-    # exhaustive: every history of <= 3 (quick) / <= 4 (thorough) operations over 2 callback objects
+        yield "prog", _gen_prog_input(rng)
+    for _ in range(ctx.n(40, 400)):
+        k = rng.randint(0, 4)
+        yield "unpack", {"cbs": [[rng.choice([0, 0, i * 5 + j + 1]) for j in range(5)] for i in range(k)],
+                         "nactive": rng.randint(0, k), "raise_inside": rng.random() < 0.3}
+    # exhaustive: two managers built ahead of time (h0 = add_callbacks(cb0), h1 = add_callbacks(cb0, cb1)), then every
+    # history of <= 3 (quick) / <= 4 (thorough) operations over 2 callback objects and these managers
     ops = _all_ops(2)
+    pre = [["buildCm", 0, 0], ["buildCm", 1, 0, 1]]
     for ln in range(1, 5 if ctx.thorough() else 4):
         for combo in itertools.product(ops, repeat=ln):
             if ln >= 3 and not ctx.thorough() and rng.random() > 0.25:
                 continue
-            yield "hist", {"tup": [0, 1], "ops": [list(o) for o in combo]}
+            yield "hist", {"tup": [0, 1], "ops": pre + [list(o) for o in combo]}
 
 
 def search(ctx):
     rng = ctx.rng
     for _ in range(ctx.n(1500, 6000)):
-        n = rng.randint(1, 3)
-        yield "prog", {"n": n, "prog": _gen_prog(rng, n, rng.randint(1, 5)), "pre": [c for c in range(n) if rng.random() < 0.25]}
+        yield "prog", _gen_prog_input(rng)
+    for _ in range(ctx.n(1500, 6000)):
+        tup, ops = _gen_hist(rng, rng.randint(1, 3), rng.randint(2, 10))
+        yield "hist", {"tup": tup, "ops": ops}
